@@ -1454,6 +1454,154 @@ func c18Shared(c fw.Case) *fw.Result {
 	return res
 }
 
+// --- config: exported package-level state of the root package must not leak into the answer ---
+//
+// Exported, assignable package-level variables of github.com/paulmach/osm (everything else
+// exported at package level is a const or a type): UninterestingTags (map, documented as the
+// list behind Tags.AnyInteresting, user-extensible), CustomJSONMarshaler,
+// CustomJSONUnmarshaler (codec hooks), CommitInfoStart (time), ErrScannerClosed (error).
+// The classification is defined on the way's node refs and tag set (relation: type tag), so
+// it must give the same answers whatever an application has put into those variables.
+
+type c18HostileCodec struct{}
+
+func (c18HostileCodec) Marshal(v interface{}) ([]byte, error) { return []byte("[]"), errC18Codec }
+func (c18HostileCodec) Unmarshal(data []byte, v interface{}) error {
+	return errC18Codec
+}
+
+var errC18Codec = fmt.Errorf("C18 harness: hostile codec")
+
+type c18Config struct {
+	label string
+	apply func()
+}
+
+func c18Configs() []c18Config {
+	setAll := func(m map[string]bool, keys []string, v bool) {
+		for _, k := range keys {
+			m[k] = v
+		}
+	}
+	ruleKeysAndArea := append(append([]string{}, c18KeyOrder...), "area")
+	var stock []string
+	for k := range osm.UninterestingTags {
+		stock = append(stock, k)
+	}
+	codecs := func() {
+		osm.CustomJSONMarshaler, osm.CustomJSONUnmarshaler = c18HostileCodec{}, c18HostileCodec{}
+		osm.CommitInfoStart = time.Date(2100, 1, 1, 0, 0, 0, 0, time.UTC)
+		osm.ErrScannerClosed = nil
+	}
+	return []c18Config{
+		{"stock", func() {}},
+		{"uninteresting+all-rule-keys+area", func() { setAll(osm.UninterestingTags, ruleKeysAndArea, true) }},
+		{"uninteresting+power,area,indoor", func() { setAll(osm.UninterestingTags, []string{"power", "area", "indoor"}, true) }},
+		{"uninteresting+type,name,building:levels", func() { setAll(osm.UninterestingTags, []string{"type", "name", "building:levels", ""}, true) }},
+		{"uninteresting-stock-removed", func() {
+			for _, k := range stock {
+				delete(osm.UninterestingTags, k)
+			}
+		}},
+		{"uninteresting-stock-false+rule-keys-false", func() {
+			setAll(osm.UninterestingTags, stock, false)
+			setAll(osm.UninterestingTags, ruleKeysAndArea, false)
+		}},
+		{"uninteresting-nil", func() { osm.UninterestingTags = nil }},
+		{"uninteresting-replaced-by-rule-keys-only", func() {
+			m := map[string]bool{}
+			setAll(m, ruleKeysAndArea, true)
+			osm.UninterestingTags = m
+		}},
+		{"hostile-codecs+commit-start+errscannerclosed", codecs},
+		{"everything", func() {
+			setAll(osm.UninterestingTags, ruleKeysAndArea, true)
+			setAll(osm.UninterestingTags, []string{"type", "name"}, true)
+			codecs()
+		}},
+	}
+}
+
+func c18ConfigKind(ck *c18Checker) {
+	// save, and restore whatever happens, so that later cases of this process see stock state
+	origMap := osm.UninterestingTags
+	origContent := map[string]bool{}
+	for k, v := range origMap {
+		origContent[k] = v
+	}
+	origM, origU, origStart, origErr := osm.CustomJSONMarshaler, osm.CustomJSONUnmarshaler, osm.CommitInfoStart, osm.ErrScannerClosed
+	restore := func() {
+		for k := range origMap {
+			delete(origMap, k)
+		}
+		for k, v := range origContent {
+			origMap[k] = v
+		}
+		osm.UninterestingTags = origMap
+		osm.CustomJSONMarshaler, osm.CustomJSONUnmarshaler, osm.CommitInfoStart, osm.ErrScannerClosed = origM, origU, origStart, origErr
+	}
+	defer restore()
+
+	stockTags := []c18Tag{{"source", "survey"}, {"created_by", "JOSM"}, {"tiger:tlid", "1"}}
+	members := c18MemberShapes()
+	for _, cfg := range c18Configs() {
+		restore()
+		cfg.apply()
+		pre := "C18/config/" + cfg.label
+		// ways: every key × representative value × area class, alone, among the stock
+		// "uninteresting" tags and next to a hostile unrelated tag
+		for ki, key := range c18KeyOrder {
+			for ri, rep := range c18Reps(key) {
+				for ai, ar := range c18AreaClasses {
+					kv := c18Tag{key, rep.V}
+					base := ar.with(kv)
+					withStock := append(append([]c18Tag{stockTags[0]}, base...), stockTags[1], stockTags[2])
+					un := c18Unrelated[(ki+ri+ai)%len(c18Unrelated)]
+					withUn := append([]c18Tag{un}, base...)
+					id := fmt.Sprintf("%s=%s/area=%s", key, rep.Label, ar.Label)
+					ck.way(pre+"/way/"+id, fmt.Sprintf("cfg/%s/%s:%s/area=%s", cfg.label, key, rep.Class, ar.Label), c18Closed4, true, true, base, c18Reverse(base))
+					ck.way(pre+"/way/"+id+"/+stock-uninteresting", "", c18Closed5, true, true, withStock, c18Reverse(withStock))
+					ck.way(pre+"/way/"+id+"/+unrelated", "", c18Closed4, true, true, withUn)
+				}
+			}
+		}
+		// ways with no rule key: nothing, only stock uninteresting tags, only area, only unrelated
+		ck.way(pre+"/way/notags", "cfg/"+cfg.label+"/notags", c18Closed4, true, true, nil)
+		ck.way(pre+"/way/only-stock-uninteresting", "cfg/"+cfg.label+"/only-stock", c18Closed4, true, true, stockTags, c18Reverse(stockTags))
+		for _, ar := range c18AreaClasses[1:] {
+			l := ar.with()
+			ls := ar.with(stockTags...)
+			ck.way(pre+"/way/only-area="+ar.Label, "cfg/"+cfg.label+"/only-area="+ar.Label, c18Closed4, true, true, l)
+			ck.way(pre+"/way/stock-uninteresting+area="+ar.Label, "cfg/"+cfg.label+"/stock+area="+ar.Label, c18Closed4, true, true, ls, c18Reverse(ls))
+		}
+		for _, u := range c18Unrelated {
+			ck.way(fmt.Sprintf("%s/way/unrelated/%q=%q", pre, u.K, u.V), "", c18Closed4, true, true, []c18Tag{u})
+		}
+		ck.way(pre+"/pre/open4/building=yes", "", c18Open4, false, true, []c18Tag{{"building", "yes"}})
+		// relations: the deciding types × member shapes, type alone and among other tags
+		for _, m := range members {
+			for _, t := range []string{"multipolygon", "boundary", "route", "", "Boundary"} {
+				for li, l := range [][]c18Tag{{{"type", t}}, {{"source", "x"}, {"type", t}, {"name", "n"}}} {
+					r := &osm.Relation{ID: 5, Members: m.ms}
+					for _, tg := range l {
+						r.Tags = append(r.Tags, osm.Tag{Key: tg.K, Value: tg.V})
+					}
+					got, stable, pan := c18CallRel(r)
+					ck.res.Event(2)
+					want := t == "multipolygon" || t == "boundary"
+					if pan != nil || !stable || got != want {
+						ck.violate(fmt.Sprintf("%s/rel/type=%s/%s", pre, t, m.label), "with package state %q: Relation.Polygon()=%v (panic %v, stable %v), want %v; tags=%s members=%s", cfg.label, got, pan, stable, want, c18FmtTags(l), m.label)
+					}
+					if li == 0 {
+						ck.res.Eval(fmt.Sprintf("cfg/%s/rel/type=%s/%s", cfg.label, t, m.label))
+					}
+				}
+			}
+		}
+		ck.res.Put("package_state_configs", cfg.label)
+	}
+}
+
 func c18Exec(c fw.Case) *fw.Result {
 	if c.Kind == "shared" {
 		return c18Shared(c)
@@ -1507,6 +1655,8 @@ func c18Exec(c fw.Case) *fw.Result {
 		c18Pre(ck)
 	case "rel":
 		c18Rel(ck)
+	case "config":
+		c18ConfigKind(ck)
 	case "multi":
 		c18Multi(ck, gen.New(c.Seed, "c18multi"), int(c.Int("n")))
 		sample["sets"] = c.Int("n")
@@ -1525,7 +1675,7 @@ func init() {
 			"(pairs) all ordered pairs of rule keys × {no, \"\", yes, a value listed under another key, every own listed value}² × the five area classes, both orders; " +
 			"(perm) every key × representative value × area class with two unrelated tags under ALL permutations; (unrelated) 57 near-miss keys alone, in all ordered pairs, all together, and around every key × representative value; " +
 			"(area) 24 spellings of the area value × 8 tag contexts; (pre) 31 node-ref shapes (0..6 and 2000 refs, open, closed, inner loops, negative / zero / >2^32 refs) × 12 tag sets; 40 annotation variants of the two end way-nodes (every subset of version/changeset/lat/lon differing, one-sided, NaN) × closed-by-ref / open-by-ref × 3 rings × 12 tag sets; " +
-			"(rel) 33 type values + absent × 6 tag contexts × 19 member-list shapes (nil, empty, one node / way / relation, only nodes, only relations, nodes+relations, only ways, way first / middle / last, annotated, unknown member types, self reference, 500 of a kind) × type first/last/middle, with the relation's own id / version / visibility / metadata (6 variants) rotating, plus the full metadata × member shape × {multipolygon, boundary, route, empty} grid and repeated type keys where both occurrences agree; (shared) 8/12/16 goroutines × 3 calls on one shared closed way with 9–40 tags in unsorted order (5 decision classes: one passing tag, passing tags + area=no, failing tags + area=yes, nothing passes, blacklisted only) and on one shared relation, a fresh object per round, plain and race builds; (multi) PRNG sets of 0–6 rule keys + area + unrelated tags under reverse, every rotation and 4 shuffles. " +
+			"(rel) 33 type values + absent × 6 tag contexts × 19 member-list shapes (nil, empty, one node / way / relation, only nodes, only relations, nodes+relations, only ways, way first / middle / last, annotated, unknown member types, self reference, 500 of a kind) × type first/last/middle, with the relation's own id / version / visibility / metadata (6 variants) rotating, plus the full metadata × member shape × {multipolygon, boundary, route, empty} grid and repeated type keys where both occurrences agree; (config) the exported assignable package-level variables of the root package (UninterestingTags extended by rule keys / area / type, emptied, set false, nil, replaced; hostile CustomJSONMarshaler/Unmarshaler, CommitInfoStart, ErrScannerClosed) in 10 configurations, each followed by every key × representative value × area class alone / among the stock uninteresting tags / next to an unrelated tag, tag-less and area-only ways, the unrelated tags and relation types × member shapes, state restored afterwards; (shared) 8/12/16 goroutines × 3 calls on one shared closed way with 9–40 tags in unsorted order (5 decision classes: one passing tag, passing tags + area=no, failing tags + area=yes, nothing passes, blacklisted only) and on one shared relation, a fresh object per round, plain and race builds; (multi) PRNG sets of 0–6 rule keys + area + unrelated tags under reverse, every rotation and 4 shuffles. " +
 			"A signature is the tag set itself for single (key, value, area class), the (key:class, key:class, area) triple for pairs, (key:class, area, n) for perm, the named shape × tag set for pre, (type, context, members) for rel and a (rule keys, area, unrelated, shape, answer) class for multi; re-orderings and open/3-ref repeats of an already counted set are trivial. distinct_nontrivial counts distinct signatures.",
 		Assumptions: []string{
 			"the CONTENT of the rule table (which keys, which rule kind, which values) is trusted to be the published tyrasd/osm-polygon-features list: /verif's copy was transcribed without network access by reading the library's embedded JSON entry by entry and comparing it with the published list as known, restructured into hash maps by rule kind, and pinned by counts and a checksum computed from a second transcription; what is tested is the library's lookup logic, init-time sorting, per-value answers, area / 'no' / closedness handling and order independence — not whether upstream has since changed the list",
@@ -1534,6 +1684,7 @@ func init() {
 			"comparisons are exact strings as in the published rules: 'No', 'no ' and ' no' are values other than 'no'; near-miss keys (case, blanks, prefixes such as building:levels) are unrelated tags",
 			"a tag list that repeats a key is not a tag set; never generated",
 			"closedness is equality of the first and last node ref with more than three refs, whatever the refs are (negative, zero, > 2^32, there-and-back rings); the annotations of the two end way-nodes (version, changeset, lat, lon, NaN, one-sided) do not matter and are enumerated in every combination; only a 4-ref way whose refs are all the same node is run but not asserted",
+			"the inputs of the classification are the way's node refs and tag set (relation: the type tag); exported package-level configuration of other features (osm.UninterestingTags behind Tags.AnyInteresting, the JSON codec hooks, CommitInfoStart, ErrScannerClosed) is not an input: answers under 10 modified package states must equal the reference (the config case restores the state with defer; cases of one child process run sequentially)",
 			"Polygon() is a read-only predicate: concurrent callers of ONE shared way / relation must all get the single-threaded answer, the object must afterwards still hold the same tag multiset and give the same answer (asserted, plain and race builds; a race report with a library frame is a violation). After every single-threaded call the receiver is compared with its state before: a changed tag set / node or member count is a violation, a mere REORDERING of the caller's tags (same set, answer unaffected) is outside the statement's wording and is recorded only (tags_reordered_by_polygon, one INCONCLUSIVE line per case)",
 			"Relation.Polygon() is compared for every listed type spelling; the member list (any shape, with or without way members), the relation's id / version / visibility / metadata, other tags (including area=no) and tag order must not matter; a tag list that repeats the type key is asserted only where every occurrence gives the same answer (which occurrence wins is counted, not asserted)",
 		},
@@ -1548,7 +1699,7 @@ func init() {
 			for from := 0; from < len(c18KeyOrder); from += 7 {
 				cs = append(cs, fw.Case{Kind: "perm", P: map[string]int64{"from": int64(from), "to": int64(from + 7)}})
 			}
-			for _, k := range []string{"unrelated", "area", "pre", "rel"} {
+			for _, k := range []string{"unrelated", "area", "pre", "rel", "config"} {
 				cs = append(cs, fw.Case{Kind: k})
 			}
 			nMulti, per := 12, int64(1500)
